@@ -43,6 +43,9 @@ SUPPORTED_REDIRECT_STATUSES = (
 )
 SUCCESS_STATUSES = SUPPORTED_REDIRECT_STATUSES + (HTTPStatus.SWITCHING_PROTOCOLS,)
 
+# upper bound on the error body read after a failed handshake (the length is the peer's claim)
+MAX_ERROR_BODY_LENGTH = 16384
+
 CookieJar = SimpleCookieJar()
 
 
@@ -150,7 +153,7 @@ def _get_resp_headers(sock, success_statuses: tuple = SUCCESS_STATUSES) -> tuple
                 body_len = -1
             if body_len >= 0:
                 # read the body of the HTTP error message response and include it in the exception
-                response_body = sock.recv(body_len)
+                response_body = sock.recv(min(body_len, MAX_ERROR_BODY_LENGTH))
         raise WebSocketBadStatusException(
             f"Handshake status {status} {status_message} -+-+- {resp_headers} -+-+- {response_body}",
             status,
